@@ -386,6 +386,11 @@ func c13Run(c *fw.Ctx, b fw.Batch) {
 				if strings.ContainsAny(line, "\n\r") {
 					line = `{"k":1}`
 				}
+				if r.Intn(8) == 0 && !crlf {
+					// a bare carriage return is JSON white space: legal between the tokens of a record
+					line = strings.Replace(line, ":", ":\r", 1)
+					line = strings.Replace(line, ",", ",\r ", 1)
+				}
 				buf.WriteString(line)
 				if li < nlines-1 || r.Intn(4) != 0 {
 					if crlf {
